@@ -20,7 +20,7 @@ MANIFEST = {
             'documented panic on reuse of a finished decoder happens before any callee has received dst. That the stored values are the '
             'right scalar values (table look-ups, pointer arithmetic) is not decided. ' 
             '(R-UTF8STORE) the hand-inlined UTF-8 writers (convert_utf16_to_utf8_partial_inner/_tail behind every UTF-16 -> UTF-8 conversion and the UTF-8 encoder, convert_latin1_to_utf8_partial, convert_unaligned_utf16_to_utf8 of the UTF-16 decoder, and the three multi-byte writers of Utf8Destination) store, for every scalar of the domain the path conditions leave (80-7FF, 800-FFFF, the supplementary planes through the shape-checked surrogate-pair formula), exactly the bytes of its UTF-8 encoding: each stored byte is evaluated as an exact piecewise function of the input and compared piece by piece over the whole domain; constant runs are one complete sequence (EF BF BD). ' 
-            '(R-BOUNDARY) the UTF-8 destination position only advances by boundary-preserving counts: one code unit inside write_code_unit, the UTF-8 validator\'s own answer for the slice that is copied (not a value clamped afterwards), an ASCII-kernel count, or the written count of the UTF-16 -> UTF-8 converter (all 7 assignments to Utf8Destination.pos classified). (R-UTF8STORE.surrogate) a UTF-16 code unit whose domain on the path still meets D800-DFFF is never stored as a UTF-8 sequence of its own (an unpaired surrogate must have become U+FFFD first).',
+            '(R-BOUNDARY) the UTF-8 destination position only advances by boundary-preserving counts: one code unit inside write_code_unit, the UTF-8 validator\'s own answer for the slice that is copied (not a value clamped afterwards), an ASCII-kernel count, or the written count of the UTF-16 -> UTF-8 converter (all 7 assignments to Utf8Destination.pos classified). (R-UTF8STORE.surrogate) a UTF-16 code unit whose domain on the path still meets D800-DFFF is never stored as a UTF-8 sequence of its own (an unpaired surrogate must have become U+FFFD first). (R-INV.pending-bmp) on every path of the UTF-16 decoder that sets pending_bmp, the unit stored into lead_surrogate on that path is shown by the conditions of that path not to be a surrogate (the next call writes it out untested). (R-STRIDE.excess, simd-accel) on a Some path a stride kernel stores no destination sub-stride beyond the one holding the reported unit, which is the bound the one-stride scrub of D1 relies on.',
     'note': 'Trusted: rustc MIR, mirx, rule library, Unicode Table 3-7 as transcribed in rules/r_writers.py, the writers\' documented argument '
             'domains (debug_assert!s; decoders never produce surrogate code points).',
     'technique': 'per-configuration effect analysis over the call graph + dominance/post-dominance shape rules + exact interval evaluation of the UTF-8 writers',
